@@ -182,7 +182,7 @@ def job_bare(payload):
         for g, w, (oc, appid) in zip(got.split(";"), oracle_bare_outcomes(bare), ctx12()):
             if w is None:
                 continue
-            if (w != "no" and g != w) or (w == "no" and g.startswith("h")):
+            if (w != "no" and g != w) or (w == "no" and g not in ("r", "f")):
                 issues.append({"level": "oracle-cond", "part": "bare-call Cond vs the registered action", "bare": bare, "oc": oc, "appid": appid, "real": g, "expected": w})
     return {"n": n, "issues": issues, "runs": runs}
 
@@ -593,7 +593,7 @@ def main(argv):
     cfgs = [(c, "corpus") for c in corpus]
     smalls = L.small_cfgs()
     cfgs += [(c, "small") for c in smalls]
-    n_random = 700 if thorough else 150
+    n_random = 500 if thorough else 150
     for i in range(n_random):
         cfgs.append((L.gen_cfg(rng), "random"))
     # hand-picked: many methods, all shapes, all-ALL next to bare ALL on every OnCompletion
